@@ -150,7 +150,93 @@ func loadProg(repo string, assumedDir string) (*Prog, error) {
 			}
 		}
 	}
+	P.mergeVariants()
+	if err := P.resolveRefines(); err != nil {
+		return nil, err
+	}
 	return P, nil
+}
+
+// mergeVariants: a variant contract inherits every clause of the plain contract of the same function
+func (P *Prog) mergeVariants() {
+	for key, specs := range P.specs {
+		var base *FuncSpec
+		for _, s := range specs {
+			if s.Variant == "" {
+				base = s
+			}
+		}
+		if base == nil {
+			continue
+		}
+		for _, s := range specs {
+			if s.Variant == "" || s.NoInherit {
+				continue
+			}
+			s.Requires = append(append([]*Clause{}, base.Requires...), s.Requires...)
+			s.Ensures = append(append([]*Clause{}, base.Ensures...), s.Ensures...)
+			s.Lets = append(append([]*Hint{}, base.Lets...), s.Lets...)
+			s.Ghosts = append(append([]*GhostPoint{}, base.Ghosts...), s.Ghosts...)
+			if len(s.Modifies) == 0 && !s.ModAll {
+				s.Modifies = base.Modifies
+				s.ModAll = base.ModAll
+			}
+			if len(s.Returns) == 0 {
+				s.Returns = base.Returns
+			}
+			if s.Decreases == nil {
+				s.Decreases = base.Decreases
+			}
+			if len(s.Props) == 0 {
+				s.Props = base.Props
+			}
+			for k, bl := range base.Loops {
+				if s.Loops == nil {
+					s.Loops = map[int]*LoopSpec{}
+				}
+				sl := s.Loops[k]
+				if sl == nil {
+					cp := *bl
+					s.Loops[k] = &cp
+					continue
+				}
+				sl.Invariants = append(append([]*Clause{}, bl.Invariants...), sl.Invariants...)
+				sl.Hints = append(append([]*Hint{}, bl.Hints...), sl.Hints...)
+				if sl.Decreases == nil {
+					sl.Decreases = bl.Decreases
+				}
+			}
+			_ = key
+		}
+	}
+}
+
+// resolveRefines: a function that refines a func-type contract carries that contract's clauses
+func (P *Prog) resolveRefines() error {
+	for key, specs := range P.specs {
+		for _, s := range specs {
+			if s.Refines == "" {
+				continue
+			}
+			tc := P.typeCons[s.Refines]
+			if tc == nil {
+				return fmt.Errorf("%s: refines unknown type contract %s", key, s.Refines)
+			}
+			s.Requires = append(append([]*Clause{}, tc.Spec.Requires...), s.Requires...)
+			s.Ensures = append(append([]*Clause{}, tc.Spec.Ensures...), s.Ensures...)
+			if len(s.Returns) == 0 {
+				s.Returns = tc.Returns
+			}
+			s.AliasParams = tc.Params
+			// ghost variables the type contract may modify
+			for _, m := range tc.Spec.Modifies {
+				if c, ok := m.(*Call); ok && c.Fun == "ghost" {
+					s.Modifies = append(s.Modifies, m)
+				}
+			}
+		}
+	}
+	return nil
 }
 
 func (P *Prog) funcKey(fn *ssa.Function) string {
